@@ -12,7 +12,7 @@ PROP = {
         ],
         "lanes": [
             native("c03"),
-            miri("c03", seeds_q=4, seeds_t=48, scale=1, args={"max-ops": 30, "check-every": 3, "programs": {"quick": 3, "thorough": 12}},
+            miri("c03", seeds_q=4, seeds_t=48, scale=1, args={"max-ops": 30, "check-every": 4, "programs": {"quick": 2, "thorough": 10}},
                  timeout={"quick": 600, "thorough": 3000}),
             san("tsan", "c03", scale=15),
         ],
